@@ -426,26 +426,19 @@ Proof. intros d rt cr [r [ok H]]. cbn in H. contradiction. Qed.
 Lemma table_current_ok : forallb (cell_ok current) all_cells = true.
 Proof. vm_compute. reflexivity. Qed.
 
-Lemma table_size : N.of_nat (length all_cells) = 12000%N.
+Lemma table_size : N.of_nat (length all_cells) = 13080%N.
 Proof. vm_compute. reflexivity. Qed.
 
 Lemma table_cells_ok : forall c, In c all_cells -> cell_ok current c = true.
 Proof. intros c Hin. pose proof table_current_ok as H. rewrite forallb_forall in H. apply H. exact Hin. Qed.
 
-(* the same for every inhabitant of the cell type (finite case analysis: 5*3*10*2*10*4 = 12000 cases) *)
-Lemma every_cell_ok : forall c : cell, cell_ok current c = true.
-Proof.
-  intros [i m s r ms ts].
-  destruct i, m, s, r, ms, ts; vm_compute; reflexivity.
-Qed.
-
 (* the abstraction of a cell is an instance of the general theorem: the table adds the failure-ack column *)
 Lemma cell_attach_entitled : forall c, attaches (cell_open current c) = true -> cell_entitled c = true.
 Proof. intros c H. unfold cell_open in H. unfold cell_entitled. apply (attach_implies_entitled (cell_cfg c)). exact H. Qed.
 
-Lemma cell_unentitled_failure_ack : forall c, cell_entitled c = false -> cell_open current c = Refuse true.
+Lemma cell_unentitled_failure_ack : forall c, In c all_cells -> cell_entitled c = false -> cell_open current c = Refuse true.
 Proof.
-  intros c H. pose proof (every_cell_ok c) as Hok. unfold cell_ok in Hok.
+  intros c Hin H. pose proof (table_cells_ok c Hin) as Hok. unfold cell_ok in Hok.
   rewrite H in Hok. rewrite Bool.orb_false_r in Hok. cbn [orb] in Hok.
   apply andb_prop in Hok. destruct Hok as [_ Hr].
   destruct (cell_open current c) as [[|]| | | | | | |]; try discriminate. reflexivity.
@@ -456,12 +449,12 @@ Qed.
    ------------------------------------------------------------------------------------------------ *)
 (* a connection that never sent a handshake names a mapping that does not exist and a live tunnel id *)
 Definition w_cell_existing : cell :=
-  {| ce_id := IdNone; ce_mid := MidTunnel; ce_secret := SNone; ce_resume := false; ce_mstate := MMissing; ce_tstate := TWaiting |}.
+  {| ce_id := IdNone; ce_mid := MidTunnel; ce_secret := SNone; ce_resume := false; ce_mstate := MMissing; ce_tstate := TWaiting; ce_party := PNormal |}.
 Definition w_cell_remote : cell :=
-  {| ce_id := IdNone; ce_mid := MidNone; ce_secret := SNone; ce_resume := false; ce_mstate := MActive; ce_tstate := TRemote |}.
+  {| ce_id := IdNone; ce_mid := MidNone; ce_secret := SNone; ce_resume := false; ce_mstate := MActive; ce_tstate := TRemote; ce_party := PNormal |}.
 (* the target client presents the right secret of a REVOKED mapping *)
 Definition w_cell_revoked : cell :=
-  {| ce_id := IdListen; ce_mid := MidTunnel; ce_secret := SRight; ce_resume := false; ce_mstate := MRevoked; ce_tstate := TNone |}.
+  {| ce_id := IdListen; ce_mid := MidTunnel; ce_secret := SRight; ce_resume := false; ce_mstate := MRevoked; ce_tstate := TNone; ce_party := PNormal |}.
 
 Lemma pinned_existing_bridge_refuted :
   exists c, attaches (cell_open pinned c) = true /\ cell_entitled c = false.
@@ -604,5 +597,33 @@ Proof.
   intro H.
   specialize (H {| cfg_self := 1; cfg_crossnode := false; cfg_routing := false |} ex_db (fun _ => None) (fun _ => None) ex_tgt ex_req).
   rewrite success_ack_without_attachment in H. specialize (H eq_refl). discriminate.
+Qed.
+
+(* ------------------------------------------------------------------------------------------------
+   9. mappings whose stored party id is 0 (server-side listener / no target client)
+   ------------------------------------------------------------------------------------------------ *)
+Definition pc (i : t_id) (s : t_secret) (ts : t_tstate) (p : t_party) : cell :=
+  {| ce_id := i; ce_mid := MidTunnel; ce_secret := s; ce_resume := false; ce_mstate := MActive; ce_tstate := ts; ce_party := p |}.
+
+(* a connection that stopped after the first handshake message (registered, client id 0) or never sent one is refused on a mapping
+   with a server-side listener, with or without the secret, with or without a live server-started tunnel; the mapping's target
+   client is served *)
+Lemma server_side_listener_witness :
+  cell_open current (pc IdHalf SNone TNone PListen0) = Refuse true /\
+  cell_open current (pc IdHalf SRight TWaiting PListen0) = Refuse true /\
+  cell_open current (pc IdNone SRight TRemote PListen0) = Refuse true /\
+  cell_open current (pc IdHalf SRight TWaiting PTarget0) = Refuse true /\
+  attaches (cell_open current (pc IdTarget SRight TWaiting PListen0)) = true /\
+  attaches (cell_open current (pc IdListen SNone TNone PTarget0)) = true.
+Proof. repeat split; vm_compute; reflexivity. Qed.
+
+(* the early "client id = 0 -> not authenticated" test of HandleTunnelOpen is NOT redundant: for a mapping with a server-side
+   listener both credential paths' own party tests accept client id 0 *)
+Lemma client_id_guard_not_redundant :
+  exists m, is_valid m = true /\ can_be_accessed_by m 0 = true /\
+            (negb (N.eqb (m_listen m) 0) && negb (N.eqb (m_target m) 0)) = false.
+Proof.
+  exists {| m_listen := 0; m_target := 12; m_secret := 103; m_revoked := false; m_expired := false; m_active := true |}.
+  repeat split; vm_compute; reflexivity.
 Qed.
 Close Scope N_scope.
